@@ -183,13 +183,42 @@ def check(col, prog, tier, profile, fixture=None):
         fl = [e for e in evs if e.extra.get("name") == "filter"]
         mp = [e for e in evs if e.extra.get("name") == "map"]
         got = None
-        if ii and ii[0].args[0][0] == "agg" and ii[0].args[0][1] == "array":
+        fm = [e for e in evs if e.extra.get("name") == "filter_map"]
+        if not ii:
+            # delegation: the public function hands a named offset table to one private helper that builds the chain
+            hc = [e for e in evs if crate.by_key.get((e.fn.get("resolved") or e.fn).get("def")) is not None and crate.by_key[(e.fn.get("resolved") or e.fn).get("def")].vis != "pub"]
+            if len(hc) == 1 and util.ret_term(st) == hc[0].res:
+                h = crate.by_key[(hc[0].fn.get("resolved") or hc[0].fn).get("def")]
+                pos_ok = [a_ for a_ in hc[0].args[:4]] == [("param", k_, I.names.get(k_)) for k_ in (1, 2, 3, 4)]
+                tab = None
+                for a_ in hc[0].args:
+                    if isinstance(a_, tuple) and a_ and a_[0] in ("assoc", "cst"):
+                        nm_ = str(a_[1]).split("::")[-1]
+                        for kc in crate.consts:
+                            if kc["name"] == nm_ and kc.get("bytes"):
+                                bs = kc["bytes"]
+                                vals = [int.from_bytes(bytes(x & 0xFF for x in bs[q:q + 8]), "little", signed=True) for q in range(0, len(bs), 8)]
+                                tab = [(vals[q], vals[q + 1]) for q in range(0, len(vals) - 1, 2)]
+                if pos_ok and tab is not None:
+                    got = tab
+                    b = h
+                    I = util.analyse(h)
+                    st = I.final_states[0]
+                    evs = [e for e in st.event_list() if e.kind == "call"]
+                    ii = [e for e in evs if e.extra.get("name") == "into_iter"]
+                    fl = [e for e in evs if e.extra.get("name") == "filter"]
+                    mp = [e for e in evs if e.extra.get("name") == "map"]
+                    fm = [e for e in evs if e.extra.get("name") == "filter_map"]
+        if fm and not fl and not mp and len(fm) == 1:
+            # filter_map(|d| in_bounds.then(|| cell)): one closure is both the filter and the map
+            fl, mp = fm, fm
+        if got is None and ii and ii[0].args[0][0] == "agg" and ii[0].args[0][1] == "array":
             try:
                 got = [(t[2][0][1], t[2][1][1]) for t in ii[0].args[0][2]]
             except Exception:
                 got = None
         key = "%s|table" % fk(b)
-        chain_ok = len(ii) == 1 and len(fl) == 1 and len(mp) == 1 and fl[0].args[0] == ii[0].res and mp[0].args[0] == fl[0].res and util.ret_term(st) == mp[0].res
+        chain_ok = len(ii) == 1 and len(fl) == 1 and len(mp) == 1 and fl[0].args[0] == ii[0].res and (mp[0].args[0] == fl[0].res or mp is fl) and util.ret_term(st) == mp[0].res
         if got == table and len(set(got)) == len(got) and chain_ok:
             col.ok("I4", b.loc(), key, "offsets %s in table order; into_iter -> filter -> map" % (got,))
         else:
@@ -236,10 +265,20 @@ def check(col, prog, tier, profile, fixture=None):
         conds = None
         for st2 in If.final_states:
             r = util.ret_term(st2)
-            if r == mk_int(0):
+            if r == mk_int(0) or (r[0] == "agg" and isinstance(r[1], tuple) and len(r[1]) > 3 and r[1][3] == "None"):
                 continue
             cs = set()
-            terms = [(f[1], bool(f[2])) for f in st2.facts if f[0] == "eq" and isinstance(f[1], tuple) and f[1][0] == "bin" and f[1][1] in ("Lt", "Le", "Gt", "Ge")] + ([(r, True)] if r != mk_int(1) else [])
+            terms = [(f[1], bool(f[2])) for f in st2.facts if f[0] == "eq" and isinstance(f[1], tuple) and f[1][0] == "bin" and f[1][1] in ("Lt", "Le", "Gt", "Ge")] + ([(r, True)] if (r != mk_int(1) and r[0] == "bin") else [])
+            # (lo..hi).contains(&x)  ==  lo <= x && x < hi
+            for f in st2.facts:
+                t_ = f[1]
+                if f[0] == "eq" and f[2] == 1 and isinstance(t_, tuple) and t_[0] == "call" and str(t_[1]).endswith("::contains"):
+                    args_ = [x for x in t_[2] if not (isinstance(x, tuple) and x and x[0] == "mem")]
+                    rg_ = args_[0][1][1] if args_[0][0] == "ref" and args_[0][1][0] == "constval" else args_[0]
+                    x_ = args_[1][1][1] if args_[1][0] == "ref" and args_[1][1][0] == "constval" else args_[1]
+                    if rg_[0] == "agg" and str(rg_[1][1]).endswith("ops::Range"):
+                        terms.append((("bin", "Ge", x_, rg_[2][0]), True))
+                        terms.append((("bin", "Lt", x_, rg_[2][1]), True))
             for (c, truth) in terms:
                 op = c[1] if truth else {"Lt": "Ge", "Le": "Gt", "Gt": "Le", "Ge": "Lt"}[c[1]]
                 a_, b_ = sym(c[2]), sym(c[3])
@@ -269,6 +308,8 @@ def check(col, prog, tier, profile, fixture=None):
         okm = False
         for st2 in Im.final_states:
             r = util.ret_term(st2)
+            if r[0] == "agg" and isinstance(r[1], tuple) and len(r[1]) > 3 and r[1][3] == "Some":
+                r = r[2][0]
             if r[0] == "agg" and r[1] == "tuple" and len(r[2]) == 2:
                 okm = [sym(x) for x in r[2]] == ["dx+i", "dy+j"] and all(x[0] == "cast" and x[2] == "usize" for x in r[2])
         fbind = fbind_save
